@@ -97,6 +97,20 @@ var vbLifeNs = []int64{
 
 func vbDurStr(ns int64) string { return fmt.Sprintf("%dns", ns) }
 
+// vbLifeVal: the duration a generated lifetime string stands for (def when left out / auto).
+func vbLifeVal(s string, def int64) int64 {
+	switch s {
+	case "", "auto":
+		return def
+	case "infinite":
+		return vbInf
+	}
+	if d, err := time.ParseDuration(s); err == nil {
+		return int64(d)
+	}
+	return 0
+}
+
 // lifetime returns a TOML value for a lifetime key ("" = leave the key out).
 func (g *vbGen) lifetime(what string, deprecated bool) string {
 	r := g.r
@@ -128,11 +142,11 @@ func (g *vbGen) lifetime(what string, deprecated bool) string {
 	case x < 90:
 		g.tag(what + ":fractional")
 		return vbDurStr(1 + r.Int63n(400*24*3600e9))
-	case x < 94:
-		g.tag(what + ":out-of-range")
-		return verifh.Pick(r, []string{"-1s", "-1ns", "4294967295.000000001s", "2000000h", "4294967296s"})
 	case x < 97:
 		return verifh.Pick(r, []string{"24h", "1h30m", "2.5s", "0.5s", "90m", "1193046h"})
+	case x < 99:
+		g.tag(what + ":out-of-range")
+		return verifh.Pick(r, []string{"-1s", "-1ns", "4294967295.000000001s", "2000000h", "4294967296s"})
 	default:
 		g.tag(what + ":zero-or-junk")
 		return verifh.Pick(r, []string{"0s", "", "junk", "1", "1.5"})
@@ -188,9 +202,9 @@ func (g *vbGen) toml() string {
 		case 3:
 			maxNs = 4e9 + 1 + r.Int63n(1e9)
 		case 4:
-			maxNs = 21842e9 / 1 // 21842 s > 1800: rejected
-			if r.Chance(80) {
-				maxNs = 1799e9 + r.Int63n(1e9)
+			maxNs = 1799e9 + r.Int63n(1e9)
+			if r.Chance(10) {
+				maxNs = 1800e9 + 1 // rejected
 			}
 		default:
 			maxNs = 4e9 + r.Int63n(1796e9)
@@ -226,8 +240,11 @@ func (g *vbGen) toml() string {
 		case 4:
 			v = "999999ns"
 		case 5:
-			v = "1h0m0.000000001s"
-			g.tag(key + ":over")
+			v = "1h"
+			if r.Chance(15) {
+				v = "1h0m0.000000001s"
+				g.tag(key + ":over")
+			}
 		case 6:
 			v = ""
 		default:
@@ -256,8 +273,11 @@ func (g *vbGen) toml() string {
 		case 5:
 			v = ""
 		case 6:
-			v = "9000.000000001s"
-			g.tag("default_lifetime:over")
+			v = "9000s"
+			if r.Chance(15) {
+				v = "9000.000000001s"
+				g.tag("default_lifetime:over")
+			}
 		default:
 			v = vbDurStr(maxNs + r.Int63n(9000e9-maxNs+1))
 		}
@@ -280,7 +300,7 @@ func (g *vbGen) toml() string {
 	}
 	if r.Chance(40) {
 		var u string
-		switch r.Intn(8) {
+		switch r.Intn(12) {
 		case 0:
 			u = "urn:ietf:params:capport:unrestricted"
 		case 1:
@@ -334,10 +354,20 @@ func (g *vbGen) toml() string {
 			kv("autonomous", verifh.B(r.Bool()))
 		}
 		v, p := g.lifetime("prefix_valid", dep), g.lifetime("prefix_preferred", dep)
-		if r.Chance(50) { // make preferred <= valid likely
-			p = ""
-			if v != "" && v != "auto" && v != "infinite" && r.Chance(50) {
-				p = v
+		if r.Chance(85) { // mostly preferred <= valid
+			vn := vbLifeVal(v, 24*3600e9)
+			if pn := vbLifeVal(p, 4*3600e9); pn > vn {
+				switch r.Intn(3) {
+				case 0:
+					p = v
+					if v == "" {
+						p = "24h"
+					}
+				case 1:
+					p = vbDurStr(1 + r.Int63n(vn))
+				default:
+					p = vbDurStr(vn - r.Int63n(min(vn, 3)))
+				}
 			}
 		}
 		if v != "" {
@@ -435,9 +465,9 @@ func (g *vbGen) toml() string {
 			g.tag("pref64:default")
 		case x < 35:
 			kv("prefix", vbQ("64:ff9b::/96"))
-		case x < 80:
+		case x < 92:
 			kv("prefix", vbQ(g.staticPrefix(base+i, []int{96, 64, 56, 48, 40, 32})))
-		case x < 90:
+		case x < 96:
 			kv("prefix", vbQ(g.staticPrefix(base+i, []int{95, 97, 50, 128, 33, 31, 0, 8})))
 			g.tag("pref64:bad-length")
 		default:
